@@ -1027,7 +1027,11 @@ namespace mustache {
         const auto mask = skip_mask.merge(prev_arch->mask_).intersection(to_remove.inverse());
         shared = shared.merge(prev_arch->sharedComponentInfo());
         auto& archetype = getArchetype(mask, shared);
-        archetype.externalMove(entity, *prev_arch, prev_location.index, skip_mask);
+        // removing a dependent of a component that stays (or a component the entity does not have) maps back to the
+        // same archetype: nothing to move
+        if (&archetype != prev_arch) {
+            archetype.externalMove(entity, *prev_arch, prev_location.index, skip_mask);
+        }
         const auto index = locations_[entity.id()].index;
         if constexpr(sizeof...(_I) > 0) {
             auto unused_init_list = {initComponent(archetype, index, std::get<_I>(tuple))...};
